@@ -611,7 +611,11 @@ func scriptedAgentScenarios(o *out, prop string) {
 	}
 	// (b) a hundred and more expirations in one Collect; the first handler registers a late, already expired
 	// transaction: the Collect that is running must not time it out (its critical section is over)
-	for _, k := range []int{99, 100, 101, 130} {
+	ks := []int{99, 100, 101, 130}
+	for _, n := range litIntsIn(8, 1200, 6) {
+		ks = append(ks, n-1, n, n+1)
+	}
+	for _, k := range ks {
 		k := k
 		bounded("mass-expiry-with-late-start", func() {
 		s, g := newScenario()
